@@ -64,8 +64,8 @@ def main():
                 res['tests_tail'] = o[-1500:]
         # demo: with patch must fail, without must pass
         dc = meta['demo_cmd']
-        dc = re.sub(r'cd /tmp/mut2?-C\d\d\s*(&&|;)', '', dc)
-        dc = dc.replace('/tmp/mut2-' + pid + '/', '').replace('/tmp/mut-' + pid + '/', '')
+        dc = re.sub(r'cd /tmp/mut\d?-C\d\d\s*(&&|;)', '', dc)
+        dc = re.sub(r'/tmp/mut\d?-' + pid + '/', '', dc)
         dc = re.sub(r'(\S*)_out/' + re.escape(name) + '/', out + '/', dc)
         if 'cp ' not in dc:
             for f in demo:
